@@ -857,6 +857,19 @@ class SymReal:
         if bool(SymBool(self.e < 0)):
             return math.nan    # numpy semantics on reals: nan + warning
         e = z3.simplify(self.e)
+        # sqrt(t*t) = |t| without a witness (keeps scalar |x-y| comparisons linear)
+        if z3.is_app_of(e, z3.Z3_OP_MUL) and e.num_args() == 2 and z3.eq(e.arg(0), e.arg(1)):
+            t = e.arg(0)
+            return SymReal(z3.If(t >= 0, t, -t))
+        if z3.is_app_of(e, z3.Z3_OP_POWER) and z3.is_rational_value(e.arg(1)) and e.arg(1).numerator_as_long() == 2 and e.arg(1).denominator_as_long() == 1:
+            t = e.arg(0)
+            return SymReal(z3.If(t >= 0, t, -t))
+        if z3.is_rational_value(e):
+            v = _as_py(e)
+            import math as _m
+            rt = fractions.Fraction(_m.isqrt(v.numerator), _m.isqrt(v.denominator)) if v >= 0 else None
+            if rt is not None and rt * rt == v:
+                return SymReal(z3.RealVal(rt.numerator) / z3.RealVal(rt.denominator))
 
         def make():
             E = ENG()
